@@ -398,11 +398,24 @@ func (obj *Real32) MarshalJSON() ([]byte, error) {
 func (obj *Real32) UnmarshalJSON(data []byte) error {
   r := struct{Value float32; Derivative []float32; Hessian [][]float32}{}
   if err := json.Unmarshal(data, &r); err == nil {
-    obj.Value = r.Value
-    if len(r.Derivative) != 0 && len(r.Hessian) != 0 {
-      if len(r.Derivative) != len(r.Derivative) {
+    // number of variables
+    n := len(r.Derivative)
+    if n == 0 {
+      n = len(r.Hessian)
+    }
+    // the Hessian must be an n x n matrix
+    if len(r.Hessian) != 0 {
+      if len(r.Hessian) != n {
         return fmt.Errorf("invalid json scalar representation")
       }
+      for i := 0; i < n; i++ {
+        if len(r.Hessian[i]) != n {
+          return fmt.Errorf("invalid json scalar representation")
+        }
+      }
+    }
+    obj.Value = r.Value
+    if len(r.Derivative) != 0 && len(r.Hessian) != 0 {
       obj.Alloc(len(r.Derivative), 2)
       obj.Derivative = r.Derivative
       obj.Hessian = r.Hessian
@@ -412,11 +425,20 @@ func (obj *Real32) UnmarshalJSON(data []byte) error {
       obj.Derivative = r.Derivative
     } else
     if len(r.Derivative) == 0 && len(r.Hessian) != 0 {
-      obj.Alloc(len(r.Derivative), 2)
+      // the gradient is not written if all entries are zero
+      obj.Alloc(n, 2)
+      obj.ResetDerivatives()
       obj.Hessian = r.Hessian
+    } else {
+      obj.ResetDerivatives()
     }
     return nil
   } else {
-    return json.Unmarshal(data, &obj.Value)
+    if err := json.Unmarshal(data, &obj.Value); err != nil {
+      return err
+    }
+    // a plain number carries no derivatives
+    obj.ResetDerivatives()
+    return nil
   }
 }
